@@ -1,5 +1,5 @@
 /-
-  PtaModel.Puml — diagram_extension/diagram_parser.py (after fixes 1b9e8e2, ce16605): tag slicing,
+  PtaModel.Puml — diagram_extension/diagram_parser.py (after fixes 1b9e8e2, ce16605 and the alias repair): tag slicing,
   line recognisers written after the two regular expressions, alias unification; and
   diagram_extension/diagram_rule.py / dependency_to_rule_converter.py / multiple_rule_applier.py.
 
@@ -194,19 +194,31 @@ def addDep (deps : List (Str × List Str)) (k v : Str) : List (Str × List Str) 
   if deps.any (·.1 == k) then deps.map fun e => if e.1 == k then (e.1, if e.2.contains v then e.2 else e.2 ++ [v]) else e
   else deps ++ [(k, [v])]
 
+/-- `PumlParser._get_modules_by_alias` (after the repair "one alias, one component"): no alias is declared with two
+    different component names. Declaring the same (alias, name) pair twice is fine; modules without alias are skipped. -/
+def aliasesConsistent (modules : List PModule) : Bool :=
+  modules.all fun m1 => modules.all fun m2 =>
+    match m1.alias, m2.alias with
+    | some a1, some a2 => a1 != a2 || m1.name == m2.name
+    | _, _ => true
+
 /-- `PumlParser.parse` on the file content -/
 def pumlParse (content : Str) : Except ErrKind Parsed' := do
   let body ← pumlBody (pyStrip content)
   let lines := splitLines body
   let modules := lines.flatMap lineModules
   let rawDeps := lines.filterMap lineDependency
-  let aliases := modules.filterMap fun m => m.alias.map fun a => (a, m.name)
-  -- later declarations of the same alias overwrite earlier ones (dict comprehension)
-  let unify (x : Str) : Str := match (aliases.filter (·.1 == x)).getLast? with | some p => p.2 | none => x
-  let grouped := rawDeps.foldl (fun acc d => addDep acc d.1 d.2) []
-  let unified := grouped.foldl (fun acc kv => kv.2.foldl (fun acc v => addDep acc (unify kv.1) (unify v)) acc) []
-  let all := dedup (modules.map (·.name) ++ unified.map (·.1) ++ unified.flatMap (·.2))
-  pure ⟨all, unified⟩
+  -- `_unify` starts with `_get_modules_by_alias`, which raises PumlParsingError when one alias is declared for two
+  -- different components (before the repair: the declaration iterated last won, i.e. a `set` order decided)
+  if aliasesConsistent modules then
+    let aliases := modules.filterMap fun m => m.alias.map fun a => (a, m.name)
+    -- all declarations of one alias carry the same name here, so taking the last one is taking any
+    let unify (x : Str) : Str := match (aliases.filter (·.1 == x)).getLast? with | some p => p.2 | none => x
+    let grouped := rawDeps.foldl (fun acc d => addDep acc d.1 d.2) []
+    let unified := grouped.foldl (fun acc kv => kv.2.foldl (fun acc v => addDep acc (unify kv.1) (unify v)) acc) []
+    let all := dedup (modules.map (·.name) ++ unified.map (·.1) ++ unified.flatMap (·.2))
+    pure ⟨all, unified⟩
+  else .error .pumlParsingError
 
 /-! ### DiagramRule -/
 
